@@ -103,6 +103,21 @@ def gen_case(rnd, i):
         x0["Nf"] = 0
         params["kf"] = float("%.4g" % (rnd.uniform(15, 40) / dt))
         rx.append({"type": "massaction", "reactants": [], "products": ["Nf"], "fields": {"k": "kf"}})
+    if rnd.random() < 0.65:
+        # declaration order: the chained repeated rules keep their relative (dependency) order, every other rule - the gate,
+        # the scheduled rule, the dt counter, the ode rule - is independent of them and may be declared anywhere in between
+        chain_targets = ("Tt", "U", "q", "W")
+        chain = [r for r in rules if r["target"] in chain_targets]
+        others = [r for r in rules if r["target"] not in chain_targets]
+        rnd.shuffle(others)
+        merged = []
+        while chain or others:
+            if chain and (not others or rnd.random() < len(chain) / float(len(chain) + len(others))):
+                merged.append(chain.pop(0))
+            else:
+                merged.append(others.pop(0))
+        rules = merged
+        feats.append("shuffled-declaration-order")
     sp = {"species": species, "x0": x0, "params": params, "reactions": rx, "rules": rules}
     return {"spec": sp, "dt": dt, "n": n, "speed": speed, "feats": feats, "sched": sched, "ode": ode,
             "seeds": [rnd.getrandbits(30) + 1 for _ in range(2)]}
